@@ -295,27 +295,102 @@ theorem lead_blank (cfg : Cfg) (b : Block) (hb : b.Legal cfg.validURI cfg.fs) (h
     exact ⟨dropCR ws, by simp only [toABlock, List.mem_map]; exact ⟨.blank ws, hf, rfl⟩, blank_class ws (hb.1 _ hf)⟩
   | comment c => cases hbl
 
+theorem toAItem_isHdr (it : Item) : (toAItem it).isHdr = it.isHeader := by cases it <;> rfl
+
 theorem asep_of_spec (cfg : Cfg) : ∀ (bs : List Block), (∀ b ∈ bs, b.Legal cfg.validURI cfg.fs) →
-    Separated bs → CommentTrapFree bs → ASep (bs.map (toABlock cfg)) := by
+    Separated bs → ASep (bs.map (toABlock cfg)) := by
   intro bs
   induction bs with
-  | nil => intro _ _ _; trivial
+  | nil => intro _ _; trivial
   | cons b r ih =>
-    intro hl hs ht
+    intro hl hs
     cases r with
     | nil => trivial
     | cons b' r' =>
-      refine ⟨?_, ih (fun x hx => hl x (by simp [hx])) hs.2 ht.2⟩
-      intro hbody
+      refine ⟨?_, ih (fun x hx => hl x (by simp [hx])) hs.2⟩
+      intro hbody hhdr
       have hbn : b.body = none := by
         simp only [toABlock, Option.map_eq_none_iff] at hbody; exact hbody
-      have hb' := hl b' (by simp)
-      by_cases hh : b.hasHeader = true
-      · exact Or.inr (lead_blank cfg b' hb' (hs.1 ⟨hh, hbn⟩))
-      · have hbare : b.isBare = true := by simp [Block.isBare, hh, hbn]
-        rcases ht.1 hbare with ⟨h1, h2⟩ | h3
-        · exact Or.inl ⟨by simp [toABlock, h1], by simp [toABlock, h2]⟩
-        · exact Or.inr (lead_blank cfg b' hb' h3)
+      have hh : b.hasHeader = true := by
+        obtain ⟨it, hit, hi⟩ := hhdr
+        simp only [toABlock, List.mem_map] at hit
+        obtain ⟨i, hi', rfl⟩ := hit
+        rw [toAItem_isHdr] at hi
+        simp only [Block.hasHeader, List.any_eq_true]
+        exact ⟨i, hi', hi⟩
+      exact lead_blank cfg b' (hl b' (by simp)) (hs.1 ⟨hh, hbn⟩)
+
+/-! ### an unterminated empty last line is no line -/
+
+theorem joinLines_snoc_nil : ∀ (L : List Bytes), L ≠ [] → joinLines (L ++ [[]]) false = joinLines L true := by
+  intro L
+  induction L with
+  | nil => intro h; exact absurd rfl h
+  | cons l r ih =>
+    intro _
+    cases r with
+    | nil => simp [joinLines]
+    | cons l2 r2 =>
+      have := ih (by simp)
+      simp only [List.cons_append, joinLines] at this ⊢
+      rw [this]
+
+theorem block_last_ne_nil (cfg : Cfg) (b : Block) (hb : b.Legal cfg.validURI cfg.fs) : b.lines.getLast? ≠ some [] := by
+  intro h
+  have hsuf : b.lines = b.lead.map Filler.line ++ (b.reqLine :: (b.items.map Item.line ++ b.body.toList.map BodyLine.line)) := rfl
+  rw [hsuf, getLast?_append_ne _ _ (by simp)] at h
+  have hmem := List.mem_of_getLast? h
+  obtain ⟨_, _, _, hm, _, _, _, hitems, hbody⟩ := hb
+  simp only [List.mem_cons, List.mem_append, List.mem_map] at hmem
+  rcases hmem with hreq | ⟨it, hit, hl⟩ | ⟨bl, hbl, hl⟩
+  · have : b.reqLine ≠ [] := by simp [Block.reqLine]
+    exact this hreq.symm
+  · have : it.line ≠ [] := by cases it <;> simp [Item.line, HeaderLine.line, Comment.line]
+    exact this hl
+  · have : bl.line ≠ [] := by simp [BodyLine.line]
+    exact this hl
+
+/-- every legal document renders to the same bytes as one with the same blocks that ends
+normally (drop an unterminated empty last line of the trail, terminate the file instead) -/
+theorem render_normalize (cfg : Cfg) (d : Doc) (hd : d.Legal cfg.validURI cfg.fs) :
+    ∃ d' : Doc, d'.blocks = d.blocks ∧ d'.Legal cfg.validURI cfg.fs ∧ NormalEnd d' ∧ render d' = render d := by
+  by_cases hend : NormalEnd d
+  · exact ⟨d, rfl, hd, hend, rfl⟩
+  · have hfn : d.finalNewline = false := by
+      cases hf : d.finalNewline with
+      | true => exact absurd (Or.inl hf) hend
+      | false => rfl
+    have hlast : d.lines.getLast? = some [] := by
+      cases hl : d.lines.getLast? with
+      | none => exact absurd (Or.inr (by rw [hl]; simp)) hend
+      | some x =>
+        by_cases hx : x = []
+        · rw [hx]
+        · exact absurd (Or.inr (by rw [hl]; intro h; cases h; exact hx rfl)) hend
+    -- the empty last line is a blank line of the trail
+    have htrail : ∃ T f, d.trail = T ++ [f] ∧ f.line = [] := by
+      rcases eq_nil_or_snoc d.trail with ht | ⟨T, f, ht⟩
+      · exfalso
+        simp only [Doc.lines, ht, List.map_nil, List.append_nil] at hlast
+        rcases eq_nil_or_snoc d.blocks with hb | ⟨bs, b, hb⟩
+        · rw [hb] at hlast; simp at hlast
+        · rw [hb, List.flatMap_append] at hlast
+          have hbl : b.lines ≠ [] := by simp [Block.lines]
+          simp only [List.flatMap_cons, List.flatMap_nil, List.append_nil] at hlast
+          rw [getLast?_append_ne _ _ hbl] at hlast
+          exact block_last_ne_nil cfg b (hd.1 b (by rw [hb]; simp)) hlast
+      · refine ⟨T, f, ht, ?_⟩
+        simp only [Doc.lines, ht, List.map_append, List.map_cons, List.map_nil, ← List.append_assoc] at hlast
+        rw [getLast?_snoc] at hlast
+        exact Option.some.inj hlast
+    obtain ⟨T, f, ht, hf⟩ := htrail
+    refine ⟨{ blocks := d.blocks, trail := T, finalNewline := true }, rfl, ⟨hd.1, ?_, hd.2.2⟩, Or.inl rfl, ?_⟩
+    · intro x hx; exact hd.2.1 x (by rw [ht]; simp [hx])
+    · simp only [render, Doc.lines, hfn, ht, List.map_append, List.map_cons, List.map_nil, hf, ← List.append_assoc]
+      generalize d.blocks.flatMap Block.lines ++ T.map Filler.line = L
+      by_cases hL : L = []
+      · subst hL; simp [joinLines]
+      · exact (joinLines_snoc_nil L hL).symm
 
 /-! ### the described targets -/
 
@@ -331,16 +406,12 @@ inductive ListRel {α β : Type} (R : α → β → Prop) : List α → List β 
 /-- the default header values as a function of the key -/
 def defaultsOf (cfg : Cfg) (h : Heap) : Bytes → Option (List Bytes) := fun k => (hlookup cfg.hdr k).map (view h)
 
-theorem wf_after_applyOwn (cfg : Cfg) (h : Heap) (wf : WfDefaults cfg h) (own : List (Bytes × Bytes)) :
-    WfDefaults cfg (applyOwn cfg.hdr h own).2 ∧
-      ∀ k, defaultsOf cfg (applyOwn cfg.hdr h own).2 k = defaultsOf cfg h k := by
-  have inv := applyOwn_inv cfg h wf own cfg.hdr h [] (callInv_init cfg h wf)
-  refine ⟨⟨fun k s hk => sliceOK_of_lens (wf.ok k s hk) inv.lens, wf.distinct⟩, ?_⟩
-  intro k
+theorem defaultsOf_extends {cfg : Cfg} {h h' : Heap} (e : Extends h h') (wf : WfDefaults cfg h) (k : Bytes) :
+    defaultsOf cfg h' k = defaultsOf cfg h k := by
   simp only [defaultsOf]
   cases hk : hlookup cfg.hdr k with
   | none => rfl
-  | some s0 => simp [inv.dviews k s0 hk]
+  | some s0 => simp [view_extends e (wf.ok k s0 hk)]
 
 theorem expect_matches (cfg : Cfg) (h0 : Heap) : ∀ (bs : List Block) (h : Heap),
     (∀ b ∈ bs, b.Legal cfg.validURI cfg.fs) → WfDefaults cfg h → (∀ k, defaultsOf cfg h k = defaultsOf cfg h0 k) →
@@ -353,12 +424,12 @@ theorem expect_matches (cfg : Cfg) (h0 : Heap) : ∀ (bs : List Block) (h : Heap
   | cons b r ih =>
     intro h hl wf hdv
     simp only [List.map_cons, expectL]
-    have hw := wf_after_applyOwn cfg h wf (ownOf (toABlock cfg b).items)
+    have he := built_extends cfg h (ownOf (toABlock cfg b).items)
     refine ListRel.cons ⟨_, rfl, rfl, rfl, ?_, ?_⟩ ?_
     · simp only [ABlock.result, toABlock, describe]
       cases b.body <;> rfl
     · intro k
-      have hm := applyOwn_merge cfg h wf (ownOf (toABlock cfg b).items) k
+      have hm := built_merge cfg h wf (ownOf (toABlock cfg b).items) k
       simp only [ABlock.result]
       rw [hm]
       have h1 : (hlookup cfg.hdr k).map (view h) = defaultsOf cfg h0 k := hdv k
@@ -366,6 +437,7 @@ theorem expect_matches (cfg : Cfg) (h0 : Heap) : ∀ (bs : List Block) (h : Heap
         simp only [toABlock, ownOf_toAItem]; rfl
       rw [h1, h2]
       rfl
-    · exact ih _ (fun x hx => hl x (by simp [hx])) hw.1 (fun k => (hw.2 k).trans (hdv k))
+    · exact ih _ (fun x hx => hl x (by simp [hx])) (wf_extends he wf)
+        (fun k => (defaultsOf_extends he wf k).trans (hdv k))
 
 end Vegeta.Proofs.HTTPRender
